@@ -103,6 +103,18 @@ const LIST_SHAPES: [&str; 14] = [
     "10 s -> zerocelsius, K", "3 m -> percent; m", "10 -> percent; ppm", "10 s -> s; s; s; s; s; s; s; s", "3 m -> ft, ans, inch", "1 -> ans, 1", "10 K -> zerocelsius; K",
 ];
 
+/// Date literals with boundary years in every position the patterns allow a year, with and without an era.
+const DATE_YEARS: [&str; 14] = ["0", "1", "0001", "9999", "10000", "262143", "262144", "2147483647", "2147483648", "-1", "-262144", "-2147483647", "-2147483648", "9223372036854775807"];
+const DATE_FORMS: [&str; 8] = ["#{y} jan 1{e}#", "#jan 1, {y}{e}#", "#{y}-01-01{e}#", "#{y}-01-01 12:00:00{e}#", "#jan 1 {y} 11:30 pm{e}#", "#{y}-W01-1{e}#", "#{y}-001{e}#", "#1 jan {y}{e}#"];
+const DATE_ERAS: [&str; 5] = ["", " bc", " ad", " bce", " ce"];
+const DATE_TAILS: [&str; 3] = ["", " + 1 day", " -> UTC"];
+
+/// Unit powers composed from small exponents: the product reaches +-2^31, +-2^32, +-2^63 although
+/// every single exponent is accepted.
+const TOWER_EXPS: [&str; 16] = ["1", "-1", "2", "32767", "32768", "-32768", "65535", "65536", "-65536", "65537", "46340", "46341", "-46341", "2147483647", "-2147483647", "3037000500"];
+const TOWER_FORMS: [&str; 7] = ["({u}^{a})^{b}", "1/({u}^{a})^{b}", "1 + ({u}^{a})^{b}", "({u}^{a})^{b} -> m", "(({u}^{a})^{b})^2", "({u}^{a})^{b} ({u}^{a})^{b}", "({u}^{a})^{b} / ({u}^{a})^{b}"];
+const TOWER_UNITS: [&str; 3] = ["m", "kg", "s"];
+
 const SEED_SRC: &str = include_str!("/repo/core/tests/query.rs");
 const MANUAL: &str = include_str!("/repo/docs/rink.7.adoc");
 
@@ -186,6 +198,38 @@ fn seeds() -> Vec<String> {
     out
 }
 
+/// Powers of powers of *base units of value 1* (`(m^-65536)^32768`, `1 + (kg^46341)^46341 -> s`):
+/// whatever the exponents, the exact result is 1 x unit^k - nothing large - so these are cheap.
+/// Recognised textually: with every `^<integer>` removed, only the names m, kg, s, the literal 1
+/// and `( ) / + - >` remain.
+pub fn unit_tower(text: &str) -> bool {
+    let chars: Vec<char> = text.chars().collect();
+    let mut rest = String::new();
+    let mut i = 0;
+    let mut pows = 0;
+    while i < chars.len() {
+        if chars[i] == '^' {
+            let mut j = i + 1;
+            if j < chars.len() && (chars[j] == '-' || chars[j] == '+') {
+                j += 1;
+            }
+            let d0 = j;
+            while j < chars.len() && chars[j].is_ascii_digit() {
+                j += 1;
+            }
+            if j == d0 {
+                return false;
+            }
+            pows += 1;
+            i = j;
+            continue;
+        }
+        rest.push(chars[i]);
+        i += 1;
+    }
+    pows >= 1 && rest.split(|c: char| " ()/+->".contains(c)).all(|w| matches!(w, "" | "m" | "kg" | "s" | "1"))
+}
+
 /// Inputs whose exact result may itself be astronomically large: they may time out or exhaust
 /// memory (what the sandbox is for) but must not panic.  Static rule on the text:
 ///  * a numeric literal with an exponent part of >= 4 digits (separators ignored), or
@@ -193,6 +237,9 @@ fn seeds() -> Vec<String> {
 ///    plain literal of at most two digits (no exponent part, no separators), or
 ///  * two or more power/shift operators, or such an operator together with `ans`.
 pub fn expensive(text: &str) -> bool {
+    if unit_tower(text) {
+        return false;
+    }
     let chars: Vec<char> = text.chars().collect();
     let is_sep = |c: char| c == '_' || c == '\u{2009}';
     // exponent literals
@@ -297,6 +344,8 @@ impl C04 {
         fams.add("float specials in context", vec![SPECIALS.len() as u64, SPECIAL_CTX.len() as u64]);
         fams.add("digit-count modifiers", vec![DIGIT_SUBJECTS.len() as u64, DIGIT_COUNTS.len() as u64, DIGIT_TAILS.len() as u64]);
         fams.add("unit-list shapes with ans", vec![LIST_SHAPES.len() as u64]);
+        fams.add("unit powers composed from small exponents", vec![TOWER_UNITS.len() as u64, TOWER_EXPS.len() as u64, TOWER_EXPS.len() as u64, TOWER_FORMS.len() as u64]);
+        fams.add("date literals with boundary years", vec![DATE_YEARS.len() as u64, DATE_FORMS.len() as u64, DATE_ERAS.len() as u64, DATE_TAILS.len() as u64]);
         fams.add("numeral modes through the query path", vec![6, 5, 7, 4]);
         fams.add("conversion targets: `3 m -> T` for every small tree T", vec![gen_t.total()]);
         fams.add("conversion targets of a bare number: `1 -> T` for every small tree T", vec![gen_t.total()]);
@@ -430,6 +479,12 @@ impl C04 {
             let b = [2, 11, 16, 36][d[3] as usize];
             return Some(format!("{}|{} -> {} base {}", p, q, m, b));
         }
+        if name.starts_with("unit powers composed") {
+            return Some(TOWER_FORMS[d[3] as usize].replace("{u}", TOWER_UNITS[d[0] as usize]).replace("{a}", TOWER_EXPS[d[1] as usize]).replace("{b}", TOWER_EXPS[d[2] as usize]));
+        }
+        if name.starts_with("date literals") {
+            return Some(format!("{}{}", DATE_FORMS[d[1] as usize].replace("{y}", DATE_YEARS[d[0] as usize]).replace("{e}", DATE_ERAS[d[2] as usize]), DATE_TAILS[d[3] as usize]));
+        }
         if name.starts_with("unit-list shapes") {
             return Some(LIST_SHAPES[d[0] as usize].to_string());
         }
@@ -547,7 +602,7 @@ impl Space for C04 {
         Meta {
             id: "C04",
             level: "exploration",
-            rule: "four exhaustive families evaluated through rink_core::eval on a long-lived context (ans preset per case from a 6-value pool incl. a zero time and NaN), every reply rendered as Display, recursive span tree and serde_json: (1) all token sequences of length <= 3 (thorough 4) over a 68-token alphabet with one token per lexer/parser branch; (2) grammar-directed trees with unit/substance/date/zero leaves; (3) every single-character deviation (delete, duplicate, swap, insert/replace with each special character) at every position of every query string of core/tests/query.rs and the manual; (4) depth/length ladders up to 500 characters for 38 repeating units, all 1- and 2- (thorough 3-) character strings over a 160-character alphabet; (5) the same inputs through the real `rink -f -` binary in batches with a sentinel after each input. Oracle: Ok or Err within 5 s, no panic/abort/stack overflow (8 MiB)/2 GiB; canary `1 + 1` after every failure and every 1000 cases. Inputs classified expensive by a static rule (exponent/shift/power towers, >= 4-digit exponent literals) may time out but not panic. Non-trivial = the input produced a reply or an error (not a skipped index); distinct by input text".into(),
+            rule: "four exhaustive families evaluated through rink_core::eval on a long-lived context (ans preset per case from a 6-value pool incl. a zero time and NaN), every reply rendered as Display, recursive span tree and serde_json: (1) all token sequences of length <= 3 (thorough 4) over a 68-token alphabet with one token per lexer/parser branch; (2) grammar-directed trees with unit/substance/date/zero leaves; (3) every single-character deviation (delete, duplicate, swap, insert/replace with each special character) at every position of every query string of core/tests/query.rs and the manual; (4) depth/length ladders up to 500 characters for 38 repeating units, all 1- and 2- (thorough 3-) character strings over a 160-character alphabet; (4a) unit powers composed from small exponents, `(u^a)^b` in 7 contexts for 16x16 exponent pairs whose products reach +-2^31, +-2^32, +-2^63 (cheap by construction: the exact result is 1 x unit^k, so the 5 s limit applies); (4b) date literals: 14 boundary years (0, 1, 9999, 10000, chrono's limits +-262144, +-2^31, 2^63-1) x 8 pattern forms x 5 eras x 3 continuations; (5) the same inputs through the real `rink -f -` binary in batches with a sentinel after each input. Oracle: Ok or Err within 5 s, no panic/abort/stack overflow (8 MiB)/2 GiB; canary `1 + 1` after every failure and every 1000 cases. Inputs classified expensive by a static rule (exponent/shift/power towers, >= 4-digit exponent literals) may time out but not panic. Non-trivial = the input produced a reply or an error (not a skipped index); distinct by input text".into(),
             assumptions: vec![
                 "8 MiB stack and 2 GiB address space stand for the resource envelope of a chat bot / CLI".into(),
                 "`ans` before each case is a deterministic function of the case index so that every failure replays in isolation".into(),
